@@ -32,6 +32,16 @@ package main
 //        bytes.Buffer, a slice from make, a map ...) is refused;
 //   (E2) it does not assign to a field of its receiver / of anything (`x.f = ..`, `x.f[i] = ..`):
 //        no per-value cache of encoded bytes.
+//
+// Third obligation (commands): the argument byte strings handed to the executors must not share
+// spare capacity -- executors store them and later grow stored values in place (APPEND), so an
+// argument whose capacity reaches into its neighbour overwrites it.  In package resp, for every
+// function reachable from a method named ToCommand (the helper Manager.Handle feeds executors with):
+//   (C1) every slice expression is a full one whose capacity is clipped to its length:
+//        x[i:j:j]  (the same expression as high and max bound);  a two-index slice  x[i:j], x[i:], x[:j]
+//        is refused.  Handing out  v.ByteData()  (what the parser allocated for that bulk string
+//        alone), copies made with make+copy / append([]byte(nil), ..) and clipped slices are the
+//        accepted shapes.
 // Outside the obligation (reported as information): deadline calls in other packages, e.g. the
 // pub/sub push path memdb.ChanMap.Send, which is the subject of C19.
 
@@ -40,6 +50,7 @@ import (
 	"fmt"
 	"go/ast"
 	"go/parser"
+	"go/printer"
 	"go/token"
 	"os"
 	"path/filepath"
@@ -69,6 +80,9 @@ type wfacts struct {
 	EncoderFuncs       []string `json:"encoder_funcs"`        // functions reachable from ToBytes methods
 	EncoderIssues      []wsite  `json:"encoder_issues"`       // violations of (E1)/(E2)
 	EncodersOK         bool     `json:"encoders_ok"`
+	CommandFuncs       []string `json:"command_funcs"`        // functions reachable from ToCommand methods
+	CommandIssues      []wsite  `json:"command_issues"`       // violations of (C1)
+	CommandsOK         bool     `json:"commands_ok"`
 	WritesOK           bool     `json:"writes_ok"`
 	OK                 bool    `json:"ok"`
 }
@@ -305,7 +319,7 @@ func cmdWriteCheck(args []string) error {
 	}
 	facts.WritesOK = facts.HandleFound && facts.HandleClusterFound && len(facts.Unrecognised) == 0 && len(facts.Writes) > 0 &&
 		shapes["Handle"] != "none" && shapes["HandleCluster"] != "none"
-	facts.OK = facts.EncodersOK && facts.HandleFound && facts.HandleClusterFound && len(facts.Unrecognised) == 0 && len(facts.Writes) > 0 &&
+	facts.OK = facts.EncodersOK && facts.CommandsOK && facts.HandleFound && facts.HandleClusterFound && len(facts.Unrecognised) == 0 && len(facts.Writes) > 0 &&
 		shapes["Handle"] != "none" && shapes["HandleCluster"] != "none"
 	out, _ := json.MarshalIndent(facts, "", " ")
 	return os.WriteFile(args[1], out, 0644)
@@ -554,7 +568,68 @@ func encoderFacts(repo string, fset *token.FileSet, facts *wfacts) error {
 	}
 	sort.Strings(facts.EncoderFuncs)
 	facts.EncodersOK = len(funcs["ToBytes"]) > 0 && len(facts.EncoderIssues) == 0
+
+	// (C1) functions reachable from the ToCommand methods
+	creach := map[*ast.FuncDecl]bool{}
+	var cq []*ast.FuncDecl
+	for _, fn := range funcs["ToCommand"] {
+		if fn.Recv != nil {
+			creach[fn] = true
+			cq = append(cq, fn)
+		}
+	}
+	for len(cq) > 0 {
+		fn := cq[0]
+		cq = cq[1:]
+		ast.Inspect(fn.Body, func(n ast.Node) bool {
+			c, ok := n.(*ast.CallExpr)
+			if !ok {
+				return true
+			}
+			name := ""
+			switch f := c.Fun.(type) {
+			case *ast.Ident:
+				name = f.Name
+			case *ast.SelectorExpr:
+				name = f.Sel.Name
+			}
+			for _, g := range funcs[name] {
+				if !creach[g] {
+					creach[g] = true
+					cq = append(cq, g)
+				}
+			}
+			return true
+		})
+	}
+	for fn := range creach {
+		label := fn.Name.Name
+		if fn.Recv != nil && len(fn.Recv.List) > 0 {
+			label = strings.TrimPrefix(exprStrStar(fn.Recv.List[0].Type), "*") + "." + label
+		}
+		facts.CommandFuncs = append(facts.CommandFuncs, label)
+		ast.Inspect(fn.Body, func(n ast.Node) bool {
+			se, ok := n.(*ast.SliceExpr)
+			if !ok {
+				return true
+			}
+			clipped := se.Slice3 && se.High != nil && se.Max != nil && render(fset, se.High) == render(fset, se.Max)
+			if !clipped {
+				facts.CommandIssues = append(facts.CommandIssues, wsite{File: funcFile[fn], Func: label, Line: fset.Position(se.Pos()).Line,
+					What: "slice expression " + render(fset, se), Why: "(C1) not of the form x[i:j:j]: the argument's spare capacity may be the memory of the arguments after it"})
+			}
+			return true
+		})
+	}
+	sort.Strings(facts.CommandFuncs)
+	facts.CommandsOK = len(funcs["ToCommand"]) > 0 && len(facts.CommandIssues) == 0
 	return nil
+}
+
+func render(fset *token.FileSet, n ast.Node) string {
+	var b strings.Builder
+	printer.Fprint(&b, fset, n)
+	return b.String()
 }
 
 func stripIndex(e ast.Expr) ast.Expr {
